@@ -233,6 +233,28 @@ def convertTriple (c : Cfg) (o : Op) (t : Triple) : Nat :=
   else if t.zero then signBit c t.sign
   else convertFinite c o t.sign t.scale t.sig
 
+/-! ### known-defect classes of the arithmetic operators (shared by the driver and by `C02_arith_partial`) -/
+
+def absR (x : Rat) : Rat := if x < 0 then -x else x
+
+/-- the operator reaches `convert` with this operand as a finite non-zero triple -/
+def finiteNZ (c : Cfg) (a : Nat) : Bool := !isNan c a && !isInf c a && !isZero c a
+
+def opOf (op : String) : Op := match op with | "mul" => .mul | "div" => .div | _ => .add
+
+/-- known-defect class of an arithmetic line, decided on the inputs (the exact result comes from the operands):
+    "" when none of the recorded findings of known_findings.json applies -/
+def arithClass (c : Cfg) (op : String) (a b : Nat) (e : Expect) : String :=
+  match e with
+  | .real x =>
+    if !(finiteNZ c a && finiteNZ c b) then "" else
+    let X := absR x
+    if (opOf op).bfbits c.fbits ≥ 65 && !exactlyRepresentable c X then "cfloat.convert.wide_path"
+    else if c.sat && !c.sup && roundsToInfPattern c X then "cfloat.convert.sat_nosup_cusp"
+    else if c.sat && c.sup && overflows c X then "cfloat.sat_sup.maxpos_is_inf"
+    else ""
+  | _ => ""
+
 /-! ### operators (cfloat_impl.hpp:485-709) -/
 
 def add (c : Cfg) (a b : Nat) : Nat :=
@@ -267,6 +289,14 @@ def div (c : Cfg) (a b : Nat) : Nat :=
     else if isInf c b then signBit c rs
     else if isZero c a then signBit c rs
     else convertTriple c .div (tripleDiv c.fbits (normalizeOp c .div a) (normalizeOp c .div b))
+
+/-- the operator a transcript line / `C02_arith_partial` names -/
+def arithOp (op : String) (c : Cfg) (a b : Nat) : Nat :=
+  match op with
+  | "add" => add c a b
+  | "sub" => sub c a b
+  | "mul" => mul c a b
+  | _ => div c a b
 
 /-! ### comparisons (cfloat_impl.hpp:3356-3422) -/
 
